@@ -20,6 +20,8 @@ pub(crate) mod config;
 pub(crate) struct TTLTicker {
     shards: Arc<[RwLock<HashMap<KeyId, ExpireAfter>>]>,
     keep_running: Arc<AtomicBool>,
+    #[cfg(feature = "verif_hooks")]
+    verif: Arc<crate::cache::verif::Instance>,
 }
 
 impl TTLTicker {
@@ -30,6 +32,8 @@ impl TTLTicker {
                 shards: (0..config.shards())
                     .map(|_| RwLock::new(HashMap::new())).collect(),
                 keep_running: Arc::new(AtomicBool::new(true)),
+                #[cfg(feature = "verif_hooks")]
+                verif: crate::cache::verif::current(),
             }
         );
         ticker.clone().spin(config.tick_duration(), config.clock(), evict_hook);
@@ -72,6 +76,17 @@ impl TTLTicker {
         self.keep_running.store(false, Ordering::Release);
     }
 
+    #[cfg(feature = "verif_hooks")]
+    pub(crate) fn verif_entries(&self) -> Vec<crate::cache::verif::TtlEntryView> {
+        let mut entries = Vec::new();
+        for (shard, locked_store) in self.shards.iter().enumerate() {
+            for (id, expire_after) in locked_store.read().iter() {
+                entries.push(crate::cache::verif::TtlEntryView { id: *id, expire_after: *expire_after, shard });
+            }
+        }
+        entries
+    }
+
     /// Determines the shard to pick for put, update, delete and get operations based on the time.
     /// Detailed explanation is available in the `spin` method.
     fn shard_index(self: &Arc<TTLTicker>, time: &SystemTime) -> usize {
@@ -93,18 +108,34 @@ impl TTLTicker {
         let receiver = tick(tick_duration);
 
         thread::spawn(move || {
+            #[cfg(feature = "verif_hooks")]
+            crate::cache::verif::install(Some(self.verif.clone()));
             while let Ok(_instant) = receiver.recv() {
+                #[cfg(feature = "verif_hooks")]
+                self.verif.sweeper_gate.pass();
+                #[cfg(feature = "verif_hooks")]
+                self.verif.sweeps_started.fetch_add(1, Ordering::AcqRel);
                 let now = clock.now();
                 let shard_index = self.shard_index(&now);
+                #[cfg(feature = "verif_hooks")]
+                self.verif.point(crate::cache::verif::Site::SweeperBeforeRetain);
 
                 self.shards[shard_index].write().retain(|key, expire_after| {
                     let has_not_expired = now.le(expire_after);
                     if !has_not_expired {
                         debug!("Key with id {} has expired", key);
+                        #[cfg(feature = "verif_hooks")]
+                        self.verif.point(crate::cache::verif::Site::SweeperInRetain);
+                        #[cfg(feature = "verif_hooks")]
+                        if self.verif.tracing() { self.verif.event(crate::cache::verif::Event::Swept { id: *key, stamp: self.verif.next_stamp() }); }
                         (evict_hook)(key);
                     }
                     has_not_expired
                 });
+                #[cfg(feature = "verif_hooks")]
+                self.verif.point(crate::cache::verif::Site::SweeperAfterRetain);
+                #[cfg(feature = "verif_hooks")]
+                self.verif.sweeps_completed.fetch_add(1, Ordering::AcqRel);
 
                 if !keep_running.load(Ordering::Acquire) {
                     info!("Shutting down TTLTicker");
